@@ -45,9 +45,16 @@ def main():
         dst = scratch_copy("neutral-" + name + ("" if save else "-try"))
         res = {}
         try:
-            r = subprocess.run(["git", "apply", os.path.join(ndir, name, "patch.diff")], cwd=dst, capture_output=True, text=True)
+            # patch_current.diff: the same change rebased onto the current tree (a later repair touched the same lines)
+            pc = os.path.join(ndir, name, "patch_current.diff")
+            r = subprocess.run(["git", "apply", pc if os.path.exists(pc) else os.path.join(ndir, name, "patch.diff")], cwd=dst, capture_output=True, text=True)
             if r.returncode != 0:
-                res["result"] = "patch does not apply"
+                # written against an earlier tree and not rebased: the result recorded when it still applied is kept and marked
+                old = results.get(name) or (json.load(open(rp)).get(name) if os.path.exists(rp) else None)
+                if old and old.get("result") in ("silent", "alarm"):
+                    res = dict(old, stale_base=True)
+                else:
+                    res["result"] = "patch does not apply"
             else:
                 # the first check builds the facts of this tree; the others reuse them
                 first = run_check(checks[0], dst)
@@ -88,8 +95,9 @@ def main():
             if os.path.exists(mp):
                 meta = json.load(open(mp))
             r = results[name]
-            fh.write("| %s | %s | %s | %s |\n" % (name, meta.get("what", "").replace("|", "\\|"), r["result"],
+            fh.write("| %s | %s | %s | %s |\n" % (name, meta.get("what", "").replace("|", "\\|"), r["result"] + (" (*)" if r.get("stale_base") else ""),
                                                  "; ".join("%s: %s" % (p, (k or [""])[0].replace("|", "\\|")[:120]) for p, k in sorted((r.get("alarms") or {}).items()))))
+        fh.write("\n(*) recorded when the change still applied: it was written against an earlier tree and a later repair of /repo rewrote the same lines.\n")
         fh.write("\n%d changes, %d silent.\n" % (sum(1 for n in names if n in results), sum(1 for n in names if results.get(n, {}).get("result") == "silent")))
     return 0
 
